@@ -6,7 +6,8 @@ Results: seeded/_own/RESULTS.json (+ one .diff per mutant)."""
 import subprocess, sys, os, json, time, re
 
 V = os.path.dirname(os.path.dirname(os.path.abspath(__file__)))
-REPO = "/repo"
+# the tree to mutate: a scratch copy (VP_RUN_REPO inside `vp run --with-repo`, or WENCRY_REPO), never /repo itself
+REPO = os.environ.get("VP_RUN_REPO") or os.environ.get("WENCRY_REPO") or "/repo"
 BG = "kernel/multi_aes/multi_buffergroup.cpp"
 M = []
 
@@ -88,11 +89,21 @@ mut("iv_ignores_seed", ["C18", "C02"], ("kernel/fheader.cpp", "    hm->getString
 mut("iv_slots_all_equal", ["C18", "C02"], ("kernel/fheader.cpp", "        hm->getStringHash(iv + (20 * (i - 1)), 20, iv + (20 * i));", "        memcpy(iv + (20 * i), iv, 20);"))
 
 
+SAVED = {}
+
+
+def restore():
+    for p, content in SAVED.items():
+        open(p, "w", encoding="utf-8").write(content)
+    SAVED.clear()
+
+
 def apply(m):
     for e in m["edits"]:
         f, old, new = e
         p = os.path.join(REPO, f)
         s = open(p, encoding="utf-8").read()
+        SAVED.setdefault(p, s)
         if old is None:  # special: Alogtable entry
             idx = s.index("const u8_t Alogtable[512]")
             body_start = s.index("{", idx) + 1
@@ -113,18 +124,28 @@ def main():
     os.makedirs(outdir, exist_ok=True)
     resf = os.path.join(outdir, "RESULTS.json")
     results = json.load(open(resf)) if os.path.exists(resf) else {}
-    assert subprocess.run(["git", "-C", REPO, "status", "--porcelain", "--untracked-files=no"], capture_output=True, text=True).stdout.strip() == "", "/repo has uncommitted changes"
+    env = dict(os.environ)
+    env["WENCRY_REPO"] = REPO
+    print("mutating", REPO, flush=True)
     for m in M:
         if sel and not any(s in m["name"] for s in sel):
             continue
         try:
             apply(m)
-            diff = subprocess.run(["git", "-C", REPO, "diff"], capture_output=True, text=True).stdout
+            diff = ""
+            for p, orig in SAVED.items():
+                tmp = p + ".orig"
+                open(tmp, "w", encoding="utf-8").write(orig)
+                diff += subprocess.run(["diff", "-u", "--label", "a/" + os.path.relpath(p, REPO), "--label", "b/" + os.path.relpath(p, REPO), tmp, p], capture_output=True, text=True).stdout
+                os.remove(tmp)
             open(os.path.join(outdir, m["name"] + ".diff"), "w").write(diff)
             r = {"note": m["note"], "checks": {}}
             for pid in m["props"]:
                 t0 = time.time()
-                p = subprocess.run([os.path.join(V, "check"), pid, "--tier", "quick"], capture_output=True, text=True, cwd=V)
+                p = subprocess.run([os.path.join(V, "check"), pid, "--tier", "quick"], capture_output=True, text=True, cwd=V, env=env)
+                if p.returncode == 2:  # infrastructure hiccup (e.g. engine edited mid-run): one retry
+                    time.sleep(30)
+                    p = subprocess.run([os.path.join(V, "check"), pid, "--tier", "quick"], capture_output=True, text=True, cwd=V, env=env)
                 what = ""
                 mm = re.search(r"what: (.*)", p.stdout)
                 if mm:
@@ -133,7 +154,7 @@ def main():
                 print("%-45s %s exit=%d %.0fs %s" % (m["name"], pid, p.returncode, time.time() - t0, what[:110]), flush=True)
             results[m["name"]] = r
         finally:
-            subprocess.run(["git", "-C", REPO, "checkout", "--", "."], check=True)
+            restore()
         json.dump(results, open(resf, "w"), indent=1)
 
 
